@@ -56,6 +56,24 @@ def typed_driver(c, cases):
         if info["rc"] != 0 and not any(any(v.values()) for v in res.values()):
             fails.append(("batch-build-failed", info["raw_tail"][-300:], batch[i]))
     c.cov["typed_driver"] = {"programs_compiled": total["modules"], "struct_assertions": total["struct_asserts"], "rejected": len(fails)}
+    # the trees the theorems speak about (Spec.toX) are the trees the real parser yields for the printed text
+    from .common import ZVDRV, sh
+    import os
+    mism = 0
+    compared = 0
+    for cs in gen:
+        sp = os.path.join(cs["dir"], "shapes.txt")
+        if not os.path.exists(sp) or not os.path.exists(cs.get("dump", "")):
+            continue
+        rc, out, err = sh([ZVDRV, "shapes", cs["dump"]])
+        want = sorted(l for l in open(sp).read().split("\n") if l)
+        have = sorted(l for l in out.split("\n") if l)
+        compared += len(want)
+        if want != have:
+            mism += 1
+            if mism == 1:
+                c.proof["errors"].append("Spec.toX differs from the parse of the rendered text for " + cs["dir"] + ": " + str((set(want) ^ set(have)))[:300])
+    c.cov["tree_rendering_check"] = {"content_models_compared": compared, "schema_sets_with_a_difference": mism}
     from . import gencrate
     gencrate.cleanup()
     return fails
